@@ -519,6 +519,78 @@ Proof.
 Qed.
 
 (* ------------------------------------------------------------------------------------------------------------ *)
+(* UNIDIRECTIONAL_SEQUENCE_LSTM                                                                                  *)
+Ltac list24 l := do 24 (destruct l as [|? l]; [discriminate|]); destruct l; [|discriminate].
+
+Lemma lstm_weight_dimensions_one : forall ranks, List.length ranks = 24%nat ->
+  (lstm_weight_dimensions ranks =? 1) = forallb (fun k => nth (Z.to_nat k) ranks 0 =? 2) [5; 6; 7; 8].
+Proof.
+  intros ranks H. list24 ranks. unfold lstm_weight_dimensions, py_slice. cbn [forallb].
+  repeat match goal with |- context [Z.to_nat ?k] => let v := eval vm_compute in (Z.to_nat k) in change (Z.to_nat k) with v end.
+  cbn [skipn firstn existsb forallb nth].
+  repeat match goal with |- context [?x =? -1] => destruct (Z.eqb_spec x (-1)); [subst; cbn; try reflexivity|] end;
+  repeat match goal with |- context [?x =? 2] => destruct (Z.eqb_spec x 2); [subst|] end; cbn; reflexivity.
+Qed.
+
+(* for an operator with 24 inputs the six constraint methods together say exactly what the six sentences say *)
+Theorem lstm_supported_is_documented : forall present ranks,
+  List.length present = 24%nat -> List.length ranks = 24%nat ->
+  lstm_supported present ranks = doc_lstm_supported present ranks.
+Proof.
+  intros present ranks Hp Hr. unfold lstm_supported, doc_lstm_supported. rewrite (lstm_weight_dimensions_one ranks Hr).
+  generalize (forallb (fun k : Z => nth (Z.to_nat k) ranks 0 =? 2) [5; 6; 7; 8]). intro wd. clear Hr ranks.
+  destruct present as [|p0 [|p1 [|p2 [|p3 [|p4 [|p5 [|p6 [|p7 [|p8 [|p9 [|p10 [|p11 [|p12 [|p13 [|p14 [|p15 [|p16 [|p17 [|p18 [|p19 [|p20 [|p21 [|p22 [|p23 [|? ?]]]]]]]]]]]]]]]]]]]]]]]]]; try discriminate Hp. clear Hp.
+  unfold lstm_no_cifg, lstm_no_peep_hole, lstm_no_projection, lstm_no_normalisation, lstm_weights, none_in, all_none, is_none, py_slice.
+  cbn [forallb].
+  repeat match goal with |- context [Z.to_nat ?k] => let v := eval vm_compute in (Z.to_nat k) in change (Z.to_nat k) with v end.
+  cbn [skipn firstn existsb forallb nth].
+  destruct (p1 =? 0), (p2 =? 0), (p3 =? 0), (p4 =? 0), (p5 =? 0), (p6 =? 0), (p7 =? 0), (p8 =? 0); cbn [negb andb orb];
+    repeat rewrite andb_true_r; repeat rewrite andb_false_r; cbn [andb]; try reflexivity;
+    repeat match goal with |- context [?x =? 0] => destruct (x =? 0) end; destruct wd; reflexivity.
+Qed.
+
+(* "Must not use CIFG" adds nothing to "All input and recurrent weights must be available"; the CIFG layout the TFLite
+   converter writes (no input-gate weights 1 and 5, no input-gate bias 12) is what constraint_lstm_no_cifg recognises *)
+Theorem lstm_no_cifg_subsumed : forall present, List.length present = 24%nat -> lstm_weights present = true -> lstm_no_cifg present = true.
+Proof.
+  intros present Hp. destruct present as [|p0 [|p1 [|p2 [|p3 [|p4 [|p5 [|p6 [|p7 [|p8 [|p9 [|p10 [|p11 [|p12 [|p13 [|p14 [|p15 [|p16 [|p17 [|p18 [|p19 [|p20 [|p21 [|p22 [|p23 [|? ?]]]]]]]]]]]]]]]]]]]]]]]]]; try discriminate Hp. clear Hp.
+  unfold lstm_weights, lstm_no_cifg, none_in, is_none, py_slice.
+  repeat match goal with |- context [Z.to_nat ?k] => let v := eval vm_compute in (Z.to_nat k) in change (Z.to_nat k) with v end.
+  cbn [skipn firstn existsb forallb nth].
+  destruct (p1 =? 0); cbn [negb andb orb]; intro H; [discriminate | rewrite andb_false_r; reflexivity].
+Qed.
+Example lstm_cifg_layout_rejected :
+  lstm_no_cifg [1; 0; 1; 1; 1; 0; 1; 1; 1; 0; 0; 0; 0; 1; 1; 1; 0; 0; 1; 1; 0; 0; 0; 0] = false /\
+  lstm_supported [1; 1; 1; 1; 1; 1; 1; 1; 1; 0; 0; 0; 1; 1; 1; 1; 0; 0; 1; 1; 0; 0; 0; 0]
+                 [3; 2; 2; 2; 2; 2; 2; 2; 2; -1; -1; -1; 1; 1; 1; 1; -1; -1; 2; 2; -1; -1; -1; -1] = true /\
+  lstm_supported [1; 1; 1; 1; 1; 1; 1; 1; 1; 0; 0; 0; 1; 1; 1; 1; 0; 0; 1; 1; 0; 0; 0; 0]
+                 [3; 2; 2; 2; 2; 2; 3; 2; 2; -1; -1; -1; 1; 1; 1; 1; -1; -1; 2; 2; -1; -1; -1; -1] = false.
+Proof. repeat split. Qed.
+
+(* the sentences the model was written from, and the lists the two drivers evaluate for the operator, by name *)
+Definition lstm_op : Z := op_by_name (codes "UnidirectionalSequenceLstm").
+Theorem lstm_sentences :
+  map (fun n => doc_by_name (codes n) constraint_fns)
+      ["sup.constraint_lstm_no_cifg"; "sup.constraint_lstm_no_peep_hole"; "sup.constraint_lstm_no_projection";
+       "sup.constraint_lstm_no_normalisation"; "sup.constraint_lstm_weights"; "sup.constraint_lstm_weight_dimensions";
+       "sem.constraint_lstm_dimensions"; "sem.constraint_lstm_inputs"; "sem.constraint_lstm_intermediates";
+       "sem.constraint_lstm_variables"]%string =
+  map codes ["Must not use CIFG"; "Must not use Peephole"; "Must not use Projection"; "Must not use Normalisation";
+             "All input and recurrent weights must be available"; "All recurrent weights must be 2D";
+             "IFM and OFM must have 3D shape"; "Must have 24 input tensors"; "Must have 5 intermediate tensors";
+             "State tensors must be variable"]%string.
+Proof. vm_compute. reflexivity. Qed.
+Theorem lstm_constraint_lists :
+  0 <= lstm_op /\ mem lstm_op supported_operators = true /\
+  map name_of (assoc lstm_op sup_specific) =
+  map codes ["sup.constraint_lstm_no_cifg"; "sup.constraint_lstm_no_peep_hole"; "sup.constraint_lstm_no_projection";
+             "sup.constraint_lstm_no_normalisation"; "sup.constraint_lstm_weights"; "sup.constraint_lstm_weight_dimensions"]%string /\
+  map name_of (assoc lstm_op sem_specific) =
+  map codes ["sem.constraint_input_signed"; "sem.constraint_matching_in_out_types"; "sem.constraint_lstm_dimensions";
+             "sem.constraint_lstm_inputs"; "sem.constraint_lstm_intermediates"; "sem.constraint_lstm_variables"]%string.
+Proof. repeat split; vm_compute; try reflexivity. discriminate. Qed.
+
+(* ------------------------------------------------------------------------------------------------------------ *)
 (* the hypotheses are satisfiable / the statements are not vacuous                                               *)
 Example ex_stride_range : constraint_stride_range K_stride_range_1 K_stride_range_0 = true /\
                           constraint_stride_range (K_stride_range_1 + 1) K_stride_range_0 = false /\
